@@ -1,8 +1,141 @@
-import AlgoVerif.Common
-/-! Line-protocol component for C01 — not built yet. -/
-namespace AlgoVerif.C01.Driver
+import AlgoVerif.Model.C01
+/-!
+Line-protocol component for C01 and C15 (keys and values are `Int`, `eqVal` is `==`).
 
-def runCase (_hdr : List String) (ops : List String) : List String :=
-  ops.map fun _ => "bad-case"
+Header: `comp=bst|avl|rb cmp=asc|desc [dump=1]`.  With `dump=1` every state-changing call appends
+` | <dump of the table it changed>`.  `dump` prints the current table: pre-order
+`(key val size L R)` for the BST, `(key val size height L R)` for AVL, `(key val size R|B L R)` for
+LLRB, `.` for nil — the format of the hook `symboltable.VerifDump`.
+-/
+namespace AlgoVerif.C01.Driver
+open AlgoVerif AlgoVerif.C01
+
+def cmpAsc (a b : Int) : Int := if a < b then -1 else if a > b then 1 else 0
+def cmpDesc (a b : Int) : Int := if a > b then -1 else if a < b then 1 else 0
+def eqI (a b : Int) : Bool := a == b
+
+partial def dumpTree (kind : Kind) : Tree Int Int → String
+  | .nil => "."
+  | .node l k v s h c r =>
+    let extra := match kind with
+      | .bst => ""
+      | .avl => s!" {h}"
+      | .rb => if c then " R" else " B"
+    s!"({k} {v} {s}{extra} {dumpTree kind l} {dumpTree kind r})"
+
+def showKVs (l : List (Int × Int)) : String :=
+  "[" ++ " ".intercalate (l.map fun (k, v) => s!"{k}:{v}") ++ "]"
+
+def showOut : Out Int Int → String
+  | .unit => "ok"
+  | .bool b => s!"ok {showBool b}"
+  | .nat n => s!"ok {n}"
+  | .int i => s!"ok {i}"
+  | .optV (some v) => s!"ok some {v}"
+  | .optV none => "ok none"
+  | .optKV (some (k, v)) => s!"ok some {k} {v}"
+  | .optKV none => "ok none"
+  | .list l => s!"ok {showKVs l}"
+  | .list2 a b => s!"ok {showKVs a} {showKVs b}"
+
+def parseOrder : String → Option Order
+  | "vlr" => some .vlr
+  | "vrl" => some .vrl
+  | "lvr" => some .lvr
+  | "rvl" => some .rvl
+  | "lrv" => some .lrv
+  | "rlv" => some .rlv
+  | "ascending" => some .ascending
+  | "descending" => some .descending
+  | "other" => some .other
+  | _ => none
+
+/-- predicate families of the harness; `%` is Go's (truncated) remainder -/
+def parsePred : List String → Option (Int → Int → Bool)
+  | ["true"] => some fun _ _ => true
+  | ["false"] => some fun _ _ => false
+  | ["kmod", m, r] => do
+    let m ← parseInt? m; let r ← parseInt? r
+    if m = 0 then none else some fun k _ => Int.tmod k m == r
+  | ["vmod", m, r] => do
+    let m ← parseInt? m; let r ← parseInt? r
+    if m = 0 then none else some fun _ v => Int.tmod v m == r
+  | ["klt", c] => do let c ← parseInt? c; some fun k _ => k < c
+  | ["sumlt", c] => do let c ← parseInt? c; some fun k v => k + v < c
+  | _ => none
+
+def parseOp (ws : List String) : Option (Op Int Int) :=
+  match ws with
+  | ["put", k, v] => do some (.put (← parseInt? k) (← parseInt? v))
+  | ["delete", k] => do some (.delete (← parseInt? k))
+  | ["deletemin"] => some .deleteMin
+  | ["deletemax"] => some .deleteMax
+  | ["deleteall"] => some .deleteAll
+  | ["swap"] => some .swap
+  | ["size"] => some .size
+  | ["isempty"] => some .isEmpty
+  | ["height"] => some .height
+  | ["get", k] => do some (.get (← parseInt? k))
+  | ["min"] => some .min
+  | ["max"] => some .max
+  | ["floor", k] => do some (.floor (← parseInt? k))
+  | ["ceiling", k] => do some (.ceiling (← parseInt? k))
+  | ["select", i] => do some (.select (← parseInt? i))
+  | ["rank", k] => do some (.rank (← parseInt? k))
+  | ["range", lo, hi] => do some (.range (← parseInt? lo) (← parseInt? hi))
+  | ["rangesize", lo, hi] => do some (.rangeSize (← parseInt? lo) (← parseInt? hi))
+  | ["all"] => some .all
+  | ["traverse", o, lim] => do some (.traverse (← parseOrder o) (← parseNat? lim))
+  | ["equal"] => some .equal
+  | "anymatch" :: p => do some (.anyMatch (← parsePred p))
+  | "allmatch" :: p => do some (.allMatch (← parsePred p))
+  | "firstmatch" :: p => do some (.firstMatch (← parsePred p))
+  | "selectmatch" :: p => do some (.selectMatch (← parsePred p))
+  | "partitionmatch" :: p => do some (.partitionMatch (← parsePred p))
+  | _ => none
+
+/-- which table(s) a call changed, for the `dump=1` suffix -/
+def dumpSuffix (kind : Kind) (cmp : Int → Int → Int) (s : State Int Int) (before : State Int Int) :
+    Op Int Int → String
+  | .put .. | .delete .. | .deleteMin | .deleteMax | .deleteAll | .swap => " | " ++ dumpTree kind s.1
+  | .selectMatch _ => " | " ++ dumpTree kind s.2
+  | .partitionMatch p =>
+    -- the unmatched table is not kept in the state: recompute it for the dump
+    match partitionMatch kind cmp p before.1 with
+    | .ok (_, u) => " | " ++ dumpTree kind s.2 ++ " | " ++ dumpTree kind u
+    | _ => ""
+  | _ => ""
+
+def runCase (hdr : List String) (ops : List String) : List String := Id.run do
+  let kind? : Option Kind := match headerGet hdr "comp" with
+    | some "bst" => some .bst
+    | some "avl" => some .avl
+    | some "rb" => some .rb
+    | _ => none
+  let some kind := kind? | return ops.map fun _ => "bad-case"
+  let cmp := match headerGet hdr "cmp" with
+    | some "desc" => cmpDesc
+    | _ => cmpAsc
+  let withDump := headerNat hdr "dump" 0 == 1
+  let mut s : State Int Int := (.nil, .nil)
+  let mut dead := false
+  let mut out : Array String := #[]
+  for line in ops do
+    if dead then out := out.push "skip"; continue
+    let ws := words line
+    if ws == ["dump"] then
+      out := out.push ("ok " ++ dumpTree kind s.1)
+      continue
+    match parseOp ws with
+    | none => out := out.push "bad-op"
+    | some op =>
+      match step kind cmp eqI s op with
+      | .ok (s', o) =>
+        let suffix := if withDump then dumpSuffix kind cmp s' s op else ""
+        s := s'
+        out := out.push (showOut o ++ suffix)
+      | .panic => dead := true; out := out.push "panic"
+      | .diverge => dead := true; out := out.push "hang"
+  return out.toList
 
 end AlgoVerif.C01.Driver
